@@ -293,6 +293,34 @@ fn output_result_xml<T: serde::Serialize>(result: T) -> Result<()> {
     // Write the XML 1.1 declaration
     writer.write_event(Event::Decl(BytesDecl::new("1.1", Some("utf-8"), None)))?;
 
+    // Element names come from map keys, some of which are chosen by the server (rule names):
+    // anything that is not allowed in an XML name is replaced by an underscore.
+    fn xml_name(key: &str) -> std::borrow::Cow<str> {
+        // NameStartChar and NameChar of the XML specification (without the colon)
+        fn is_start(c: char) -> bool {
+            matches!(c,
+                'A' ..= 'Z' | '_' | 'a' ..= 'z' | '\u{C0}' ..= '\u{D6}' | '\u{D8}' ..= '\u{F6}' | '\u{F8}' ..= '\u{2FF}'
+                | '\u{370}' ..= '\u{37D}' | '\u{37F}' ..= '\u{1FFF}' | '\u{200C}' ..= '\u{200D}' | '\u{2070}' ..= '\u{218F}'
+                | '\u{2C00}' ..= '\u{2FEF}' | '\u{3001}' ..= '\u{D7FF}' | '\u{F900}' ..= '\u{FDCF}' | '\u{FDF0}' ..= '\u{FFFD}'
+                | '\u{10000}' ..= '\u{EFFFF}')
+        }
+        fn is_part(c: char) -> bool {
+            is_start(c) || matches!(c, '-' | '.' | '0' ..= '9' | '\u{B7}' | '\u{300}' ..= '\u{36F}' | '\u{203F}' ..= '\u{2040}')
+        }
+
+        let mut chars = key.chars();
+        if chars.next().is_some_and(is_start) && chars.all(is_part) {
+            return std::borrow::Cow::Borrowed(key);
+        }
+
+        let mut name = String::with_capacity(key.len() + 1);
+        if !key.chars().next().is_some_and(is_start) {
+            name.push('_');
+        }
+        name.extend(key.chars().map(|c| if is_part(c) { c } else { '_' }));
+        std::borrow::Cow::Owned(name)
+    }
+
     // Escape text for an XML 1.1 document: the markup characters, and the control characters
     // which are only allowed as character references (NUL is not allowed at all).
     fn escape_xml_text(text: &str) -> String {
@@ -325,7 +353,7 @@ fn output_result_xml<T: serde::Serialize>(result: T) -> Result<()> {
             Value::Object(obj) => {
                 if let Some(key) = key {
                     // Start an XML element for the object.
-                    writer.write_event(Event::Start(BytesStart::new(key)))?;
+                    writer.write_event(Event::Start(BytesStart::new(xml_name(key))))?;
                 }
 
                 for (k, v) in obj {
@@ -335,7 +363,7 @@ fn output_result_xml<T: serde::Serialize>(result: T) -> Result<()> {
 
                 if let Some(key) = key {
                     // Close the XML element for the object.
-                    writer.write_event(Event::End(BytesEnd::new(key)))?;
+                    writer.write_event(Event::End(BytesEnd::new(xml_name(key))))?;
                 }
             }
 
@@ -351,7 +379,7 @@ fn output_result_xml<T: serde::Serialize>(result: T) -> Result<()> {
             // If the JSON value is null, create an empty XML element.
             Value::Null => {
                 if let Some(key) = key {
-                    writer.write_event(Event::Empty(BytesStart::new(key)))?;
+                    writer.write_event(Event::Empty(BytesStart::new(xml_name(key))))?;
                 }
             }
 
@@ -361,7 +389,7 @@ fn output_result_xml<T: serde::Serialize>(result: T) -> Result<()> {
             _ => {
                 if let Some(key) = key {
                     // Start the XML element with the given key.
-                    writer.write_event(Event::Start(BytesStart::new(key)))?;
+                    writer.write_event(Event::Start(BytesStart::new(xml_name(key))))?;
                 }
 
                 // Convert the JSON value to a string, trimming quotes for non-string values.
@@ -375,7 +403,7 @@ fn output_result_xml<T: serde::Serialize>(result: T) -> Result<()> {
 
                 if let Some(key) = key {
                     // Close the XML element.
-                    writer.write_event(Event::End(BytesEnd::new(key)))?;
+                    writer.write_event(Event::End(BytesEnd::new(xml_name(key))))?;
                 }
             }
         }
